@@ -8,96 +8,72 @@ namespace Tiny
 
 theorem escape_nil : escape [] = [] := rfl
 
-theorem escape_cons (c : Nat) (r : JStr) :
-    escape (c :: r) = if c = 10 then 92 :: 110 :: escape r else c :: escape r := by
-  simp only [escape, List.flatMap_cons]
-  split <;> simp
+/-- the piece `escape` writes for one character -/
+def escChar (c : Nat) : JStr :=
+  if c = 92 then [92, 92] else if c = 10 then [92, 110] else if c = 13 then [92, 114] else if c = 9 then [92, 116] else [c]
 
-theorem escape_no_lf (d : JStr) : 10 ∉ escape d := by
-  induction d with
-  | nil => simp [escape]
-  | cons c r ih =>
-    rw [escape_cons]
-    split
-    · simp [ih]
-    · rename_i h
-      simp only [List.mem_cons, not_or]
-      exact ⟨fun h' => h h'.symm, ih⟩
+theorem escape_cons (c : Nat) (r : JStr) : escape (c :: r) = escChar c ++ escape r := by
+  simp only [escape, List.flatMap_cons, escChar]
 
-theorem escape_mem {d : JStr} {x : Nat} (hx : x ∈ escape d) : x ∈ d ∨ x = 92 ∨ x = 110 := by
-  induction d with
-  | nil => simp [escape] at hx
-  | cons c r ih =>
-    rw [escape_cons] at hx
-    split at hx
-    · simp only [List.mem_cons] at hx
-      rcases hx with h | h | h
-      · exact Or.inr (Or.inl h)
-      · exact Or.inr (Or.inr h)
-      · rcases ih h with h | h
-        · exact Or.inl (List.mem_cons_of_mem _ h)
-        · exact Or.inr h
-    · simp only [List.mem_cons] at hx
-      rcases hx with h | h
-      · exact Or.inl (by simp [h])
-      · rcases ih h with h | h
-        · exact Or.inl (List.mem_cons_of_mem _ h)
-        · exact Or.inr h
-
-theorem escape_head (c : Nat) (r : JStr) : (escape (c :: r)).head? = some (if c = 10 then 92 else c) := by
-  rw [escape_cons]; split <;> rfl
-
-/-- `unescape` undoes `escape` on comments that do not contain a backslash directly followed by `n` -/
-theorem unescape_escape : ∀ d : JStr, noBsN d = true → unescape (escape d) = d
-  | [], _ => rfl
-  | [c], _ => by
-    rw [escape_cons, escape_nil]
-    split
-    · rename_i h; subst h; simp [unescape]
-    · simp [unescape]
-  | a :: b :: r, h => by
-    simp only [noBsN, Bool.and_eq_true, Bool.not_eq_true', Bool.and_eq_false_iff, beq_eq_false_iff_ne] at h
-    have ih := unescape_escape (b :: r) h.2
-    rw [escape_cons]
-    split
-    · rename_i ha
-      simp only [unescape, ih, ha]
-      simp
-    · rename_i ha
-      have hb : escape (b :: r) = (if b = 10 then 92 else b) :: (escape (b :: r)).tail := by
-        rw [escape_cons]; split <;> rfl
-      rw [hb, unescape]
-      have : ¬ (a = 92 ∧ (if b = 10 then 92 else b) = 110) := by
-        rintro ⟨h1, h2⟩
-        split at h2
-        · omega
-        · rcases h.1 with h' | h'
-          · exact h' h1
-          · exact h' h2
-      rw [if_neg this, ← hb, ih]
-
-theorem escape_getLast (d : JStr) (h : d.getLast? ≠ some 13) : (escape d).getLast? ≠ some 13 := by
-  induction d with
-  | nil => simp [escape]
-  | cons c r ih =>
-    cases r with
-    | nil =>
-      rw [escape_cons, escape_nil]
-      split
+theorem escChar_clean (c : Nat) : 9 ∉ escChar c ∧ 10 ∉ escChar c ∧ 13 ∉ escChar c := by
+  unfold escChar
+  split
+  · simp
+  · split
+    · simp
+    · split
       · simp
-      · simpa using h
-    | cons b r =>
-      have hr : (b :: r).getLast? ≠ some 13 := by simpa [List.getLast?_cons_cons] using h
-      have := ih hr
-      have hne : escape (b :: r) ≠ [] := by
-        rw [escape_cons]; split <;> simp
-      rw [escape_cons]
-      obtain ⟨x, y, hxy⟩ := List.exists_cons_of_ne_nil hne
+      · split
+        · simp
+        · rename_i h1 h2 h3 h4
+          simp only [List.mem_singleton]
+          exact ⟨fun h => h4 h.symm, fun h => h2 h.symm, fun h => h3 h.symm⟩
+
+/-- an escaped comment contains no TAB, LF or CR: it is one cell of one line -/
+theorem escape_clean (d : JStr) : 9 ∉ escape d ∧ 10 ∉ escape d ∧ 13 ∉ escape d := by
+  induction d with
+  | nil => simp [escape]
+  | cons c r ih =>
+    rw [escape_cons]
+    have hc := escChar_clean c
+    simp only [List.mem_append, not_or]
+    exact ⟨⟨hc.1, ih.1⟩, ⟨hc.2.1, ih.2.1⟩, ⟨hc.2.2, ih.2.2⟩⟩
+
+theorem escape_no_lf (d : JStr) : 10 ∉ escape d := (escape_clean d).2.1
+
+theorem unescape_cons_of_ne (a : Nat) (h : a ≠ 92) : ∀ t : JStr, unescape (a :: t) = a :: unescape t
+  | [] => rfl
+  | b :: r => by simp [unescape, h]
+
+/-- **`unescape` undoes `escape` on every comment** -/
+theorem unescape_escape : ∀ d : JStr, unescape (escape d) = d
+  | [] => rfl
+  | c :: r => by
+    have ih := unescape_escape r
+    rw [escape_cons]
+    unfold escChar
+    split
+    · rename_i h; subst h
+      simp [unescape, ih]
+    · rename_i h92
       split
-      · rw [hxy] at this ⊢
-        simpa [List.getLast?_cons_cons] using this
-      · rw [hxy] at this ⊢
-        simpa [List.getLast?_cons_cons] using this
+      · rename_i h; subst h
+        simp [unescape, ih]
+      · split
+        · rename_i h; subst h
+          simp [unescape, ih]
+        · split
+          · rename_i h; subst h
+            simp [unescape, ih]
+          · simp only [List.singleton_append]
+            rw [unescape_cons_of_ne c h92, ih]
+
+/-- `escape` is injective -/
+theorem escape_injective {a b : JStr} (h : escape a = escape b) : a = b := by
+  rw [← unescape_escape a, ← unescape_escape b, h]
+
+theorem escape_getLast (d : JStr) : (escape d).getLast? ≠ some 13 :=
+  fun h => (escape_clean d).2.2 (List.mem_of_getLast? h)
 
 /-! ## cells: `split('\t')` -/
 
@@ -147,8 +123,8 @@ theorem takeWhile_replicate_tab (n : Nat) (rest : List Nat) (h : rest.head? ≠ 
     | nil => rfl
     | cons c r =>
       have : c ≠ 9 := by simpa using h
-      simp [List.takeWhile, this]
-  | succ n ih => simp [List.replicate_succ, List.takeWhile, ih]
+      simp [this]
+  | succ n ih => simp [List.replicate_succ, ih]
 
 theorem tinyLine_mkLine (indent : Nat) (first : JStr) (cells : List JStr)
     (h1 : first ≠ []) (h2 : 9 ∉ first) (h3 : ∀ c ∈ cells, 9 ∉ c) :
